@@ -4,9 +4,11 @@ import (
 	"bytes"
 	"errors"
 	"fmt"
+	"io"
 	"path/filepath"
 	"strings"
 	"syscall"
+	"time"
 
 	"github.com/glebziz/fs_db"
 	"github.com/glebziz/fs_db/pkg/verif"
@@ -272,5 +274,110 @@ func c11RejectCase(tier string, seed int64, idx int, scratch string) rt.CaseResu
 	if idx == 0 {
 		c.Sample = map[string]any{"rejections": []string{"empty key", "no space on any root (hook in the in-process server)", "I/O error after half a chunk", "version record cannot be written", "none"}, "sizes": sizes}
 	}
+	return c
+}
+
+func init() {
+	p := Registry["C11"]
+	p.Roles["longhandle"] = Role{N: func(t string) int { return tierN(t, 0, 2) }, Case: c11LongHandle}
+	p.Rule += " Role longhandle (thorough tier only, 50 s per case): a file from Create and a reader from GetReader (8 MiB value) stay open for 47 seconds on both clients while every second a kilobyte is written / read and ordinary calls are made; then Close, the rest of the reader, Get: the gRPC client must behave as the inline one (a connection that the server recycles under a long-lived handle shows here)."
+}
+
+// c11LongHandle: handles that stay open for most of a minute.
+func c11LongHandle(tier string, seed int64, idx int, scratch string) rt.CaseResult {
+	var c rt.CaseResult
+	rt.SetWatchdogLimit(3 * time.Minute)
+	g, err := dbx.Open(dbx.Options{Mode: dbx.Grpc, Dir: filepath.Join(scratch, "g")})
+	if err != nil {
+		c.Violate("open-failed", err.Error(), nil)
+		return c
+	}
+	defer g.Close()
+	in, err := dbx.Open(dbx.Options{Mode: dbx.Inline, Dir: filepath.Join(scratch, "i")})
+	if err != nil {
+		c.Violate("open-failed", err.Error(), nil)
+		return c
+	}
+	defer in.Close()
+	big := seqrun.Content(fmt.Sprintf("lh%d-big", idx), 8<<20)
+	type side struct {
+		name   string
+		db     fs_db.DB
+		f      fs_db.File
+		rd     io.ReadCloser
+		events []string
+		got    []byte
+	}
+	sides := []*side{{name: "inline", db: in.DB}, {name: "grpc", db: g.DB}}
+	note := func(s *side, what string, err error) {
+		s.events = append(s.events, what+": "+string(seqrun.Class(err)))
+	}
+	for _, s := range sides {
+		note(s, "set big", s.db.Set(ctxBg, "big", big))
+		var err error
+		s.f, err = s.db.Create(ctxBg, "slow")
+		note(s, "create", err)
+		s.rd, err = s.db.GetReader(ctxBg, "big")
+		note(s, "getreader", err)
+	}
+	var written []byte
+	secs := 47 + idx*5
+	for sec := 0; sec < secs; sec++ {
+		rt.Beat()
+		chunk := seqrun.Content(fmt.Sprintf("lh%d-w%d", idx, sec), 1024)
+		written = append(written, chunk...)
+		for _, s := range sides {
+			if s.f != nil {
+				_, err := s.f.Write(chunk)
+				note(s, "write", err)
+			}
+			if s.rd != nil {
+				buf := make([]byte, 1024)
+				n, err := io.ReadFull(s.rd, buf)
+				s.got = append(s.got, buf[:n]...)
+				note(s, "read", err)
+			}
+			note(s, "set", s.db.Set(ctxBg, "ordinary", chunk[:10]))
+			_, err := s.db.Get(ctxBg, "ordinary")
+			note(s, "get", err)
+		}
+		time.Sleep(time.Second)
+	}
+	for _, s := range sides {
+		if s.f != nil {
+			note(s, "close", s.f.Close())
+		}
+		if s.rd != nil {
+			rest, err := io.ReadAll(s.rd)
+			s.got = append(s.got, rest...)
+			note(s, "read rest", err)
+			s.rd.Close()
+		}
+		b, err := s.db.Get(ctxBg, "slow")
+		note(s, "get slow", err)
+		if err == nil && !bytes.Equal(b, written) {
+			s.events = append(s.events, "get slow: content differs")
+		}
+		if !bytes.Equal(s.got, big) {
+			s.events = append(s.events, fmt.Sprintf("reader delivered %d bytes, not the value", len(s.got)))
+		}
+	}
+	c.Evals = int64(len(sides[0].events))
+	for i := range sides[0].events {
+		if i >= len(sides[1].events) || sides[0].events[i] != sides[1].events[i] {
+			other := "(nothing)"
+			if i < len(sides[1].events) {
+				other = sides[1].events[i]
+			}
+			c.Violate("long-lived-handle-differs inline-vs-grpc", fmt.Sprintf("event %d of a %d s session with a file and a reader open all the time: inline %q, gRPC %q", i, secs, sides[0].events[i], other), map[string]any{"seconds": secs, "event": i, "inline": sides[0].events[i], "grpc": other})
+			return c
+		}
+	}
+	if len(sides[0].events) != len(sides[1].events) {
+		c.Violate("long-lived-handle-differs inline-vs-grpc", "the two clients produced different numbers of events", nil)
+		return c
+	}
+	c.AddDistinct(fmt.Sprintf("longhandle/%ds", secs))
+	c.Sample = map[string]any{"seconds": secs, "events": len(sides[0].events)}
 	return c
 }
